@@ -84,4 +84,11 @@ theorem bishop_attack_symm (s t : Sq) (occ : BB) :
 example : isCellAttacked (buildBoard C04.initialRaw) ⟨44, by decide⟩ .white = true := by decide +kernel
 example : Spec.attackedBy (abs C04.initialRaw) ⟨44, by decide⟩ .white = true := by decide +kernel
 
+/-- the hypothesis of `is_check_iff_exists_checker` is met (the start position has a king, and nobody checks it) -/
+example : checkers? (buildBoard C04.initialRaw) = some 0#64 := by decide +kernel
+example : isCheck? (buildBoard C04.initialRaw) = some false := by decide +kernel
+/-- symmetry instance: with only squares 0 and 56 (the two ends of the a-file) occupied, rooks there see each other -/
+example : (rookAttack ⟨0, by decide⟩ (1#64 ||| (1#64 <<< 56))).has ⟨56, by decide⟩ = true
+    ∧ (rookAttack ⟨56, by decide⟩ (1#64 ||| (1#64 <<< 56))).has ⟨0, by decide⟩ = true := by decide +kernel
+
 end Owl.Props.C16
